@@ -252,7 +252,7 @@ def gen_world(rng, rich=True, natives=True, max_depth=3):
     if natives:
         for n, a, rows in facts:
             if rng.random() < 0.35:
-                styles = ['inferred', 'explicit', 'variadic', 'decorated', 'prebuilt', 'explicit-varargs']
+                styles = ['inferred', 'explicit', 'variadic', 'decorated', 'prebuilt', 'explicit-varargs', 'delegate']
                 if n == 'k':
                     styles += ['prebuilt'] * 4
                 native.append([n, a, rng.choice(styles), rng.random() < 0.5])
@@ -294,7 +294,7 @@ def world_source(world, without=()):
     return '\n'.join(parts) + '\n'
 
 
-def make_native(yp, unify, rows, arity, style, yield_value, ctl):
+def make_native(yp, unify, rows, arity, style, yield_value, ctl, name=None):
     """a Python generator predicate with the same solutions as the fact table `rows`.
     ctl: dict with 'calls' (invocation counter), 'fault' (None or (j, phase)), 'exc'
     (the exception object to raise), 'args' (log of argument type names per call)."""
@@ -336,6 +336,27 @@ def make_native(yp, unify, rows, arity, style, yield_value, ctl):
                         raise ctl['exc']
         finally:
             ctl['live'] -= 1
+    if style == 'delegate' and name is not None:
+        # the predicate gets its solutions by running a query of its own on the engine (re-entrant use of the API
+        # from inside a user predicate): the facts live in the compiled predicate <name>_impl
+        def impl_d(*args):
+            ctl['calls'] += 1
+            me = ctl['calls']
+            ctl['args'].append(tuple(type(a).__name__ for a in args))
+            ctl['live'] = ctl.get('live', 0) + 1
+            try:
+                if ctl['fault'] is not None and tuple(ctl['fault'][:2]) == (me, 'pre'):
+                    ctl['fired'] = ctl.get('fired', 0) + 1
+                    raise ctl['exc']
+                for _ in yp.query(name + '_impl', list(args)):
+                    yield yield_value
+                    if ctl['fault'] is not None and tuple(ctl['fault'][:2]) == (me, 'resume'):
+                        ctl['fired'] = ctl.get('fired', 0) + 1
+                        raise ctl['exc']
+            finally:
+                ctl['live'] -= 1
+        wr = {0: lambda: impl_d(), 1: lambda a: impl_d(a), 2: lambda a, b: impl_d(a, b), 3: lambda a, b, c: impl_d(a, b, c)}
+        return wr[arity], None
     if style == 'variadic':
         return impl, -1
     if style == 'explicit-varargs':
